@@ -65,9 +65,9 @@ def _rand_cmd(rng):
     if r < 0.89: return ["set_add", rng.choice(["sa", "sb"]), rng.sample(["x", "y", "z", "xa"], rng.randint(1, 3)), rng.choice([None, None, 0.5, 1.0])]
     if r < 0.91: return ["set_remove", rng.choice(["sa", "sb"]), rng.sample(["x", "y", "z"], rng.randint(1, 2))]
     if r < 0.93: return ["set_pop", rng.choice(["sa", "sb"]), rng.choice([1, 2, 100])]
-    if r < 0.95: return ["get_bits", "ba", rng.choice([1, 2, 3, 4]), [rng.randint(0, 9) for _ in range(rng.randint(0, 3))]]
-    if r < 0.97: return ["incr_bits", "ba", rng.choice([1, 2, 3, 4]), [rng.randint(0, 9) for _ in range(rng.randint(0, 3))], rng.choice([1, 1, 2, 7])]
-    if r < 0.985: return ["slice_incr", "za", rng.randint(0, 6), rng.randint(6, 14), rng.choice([1, 2, 3]), rng.choice([0, 1.0, 2.5])]
+    if r < 0.945: return ["get_bits", "ba", rng.choice([1, 2, 3, 4]), [rng.randint(0, 9) for _ in range(rng.randint(0, 3))]]
+    if r < 0.96: return ["incr_bits", "ba", rng.choice([1, 2, 3, 4]), [rng.randint(0, 9) for _ in range(rng.randint(0, 3))], rng.choice([1, 1, 2, 7])]
+    if r < 0.985: return ["slice_incr", "za", rng.randint(0, 6), rng.choice([6, 6, 7, 9, 14]), rng.choice([1, 2, 3, 4]), rng.choice([0, 1.0, 2.5])]
     if r < 0.99: return ["count"]
     if r < 0.995: return ["clear"]
     return ["ping"]
@@ -125,7 +125,7 @@ async def _dump(server, be):
                 try: val = ["val", enc(await be._serializer.decode(be, key=k, value=v, default=None))]
                 except Exception: val = ["str", "<undecodable>"]  # noqa
         elif kind == "set": val = ["set", sorted(m.decode() for m in v)]
-        else: val = ["zset", sorted(int(float(m)) for m in v)]
+        else: val = ["zset", sorted(int(sc) for sc in v.values())]
         out.append([val, None if exp is None else exp - BASE_MS])
     return out
 
